@@ -62,4 +62,56 @@ Section Doc.
     exists (ENode t s es). simpl. rewrite T, Pes, A. split; auto. rewrite R, O, Ees.
     pose proof (pick_tagged k 0 [] (map tag_of k) (map_length _ _) eq_refl) as PT. simpl in PT. rewrite PT. reflexivity.
   Qed.
+
+  (* ---- the library's own output: whatever emit produces from a consistent element tree is a valid document ---- *)
+  Definition etag (e:elt) : positive := match e with ENode t _ _ => t end.
+  (* consistent: the state is a reachable state of the tag's template, and every (id, name) of the schema-ordered view points at a child
+     with that tag (what add_child maintains: the id is the child's position in the insertion list) *)
+  Fixpoint elt_ok (e:elt) : Prop :=
+    match e with ENode tag s es =>
+      (exists t, tpl tag = Some t /\ wf_t t = true /\ NoDup (alpha_t t) /\ Inv s /\ shape s = t)
+      /\ (forall p, In p (ordered s) -> exists c, nth_error es (fst p) = Some c /\ etag c = snd p)
+      /\ (fix all (l:list elt) : Prop := match l with [] => True | c :: r => elt_ok c /\ all r end) es end.
+  Section elt_ind2.
+    Variable P : elt -> Prop.
+    Hypothesis H : forall t s k, Forall P k -> P (ENode t s k).
+    Fixpoint elt_ind2 (e:elt) : P e :=
+      match e with ENode t s k => H t s k ((fix go (l:list elt) : Forall P l := match l with [] => Forall_nil P | x :: r => Forall_cons x (elt_ind2 x) (go r) end) k) end.
+  End elt_ind2.
+  Lemma emit_tag e d : emit e = Some d -> tag_of d = etag e.
+  Proof. destruct e as [t s es]. simpl. destruct (required true s); [|discriminate]. destruct (all_some _); simpl; [|discriminate]. intros E. injection E as <-. reflexivity. Qed.
+  Lemma all_some_spec {A} (l:list (option A)) r : all_some l = Some r -> Forall2 (fun o x => o = Some x) l r.
+  Proof.
+    revert r. induction l as [|o l IH]; simpl; intros r E.
+    - injection E as <-. constructor.
+    - destruct o as [x|]; [|discriminate]. destruct (all_some l) as [r'|]; [|discriminate]. injection E as <-. constructor; auto.
+  Qed.
+  Theorem emitted_is_valid : forall e, elt_ok e -> forall d, emit e = Some d -> valid d.
+  Proof.
+    induction e using elt_ind2. intros [(st & T & W & ND & I & Sh) [C OK]] d E. simpl in E.
+    destruct (required true s) eqn:R; [|discriminate].
+    destruct (all_some (map (pick (map emit k)) (ordered s))) as [kids|] eqn:A; [|discriminate]. injection E as <-.
+    apply all_some_spec in A.
+    (* every picked kid is the emission of a consistent child with the recorded tag *)
+    assert (K: Forall2 (fun p kd => tag_of kd = snd p /\ valid kd) (ordered s) kids).
+    { assert (Sub: forall l kids0, (forall p, In p l -> In p (ordered s)) -> Forall2 (fun o x => o = Some x) (map (pick (map emit k)) l) kids0 ->
+                   Forall2 (fun p kd => tag_of kd = snd p /\ valid kd) l kids0).
+      { induction l as [|p l IHl]; intros kids0 Incl F; inversion F as [|o x l' r' H3 Hr]; subst; constructor.
+        - destruct (C p (Incl p (or_introl eq_refl))) as (c & Nc & Tc). unfold pick in H3. rewrite nth_error_map, Nc in H3. simpl in H3.
+          destruct (emit c) as [dc|] eqn:Ec; [|discriminate]. injection H3 as <-.
+          split; [rewrite (emit_tag c dc Ec); exact Tc|].
+          assert (Ic: In c k) by (eapply nth_error_In; eauto). rewrite Forall_forall in H. apply (H c Ic); auto.
+          clear -OK Ic. induction k as [|x r IHr]; [destruct Ic|]. destruct OK as [Ox Or]. destruct Ic as [<-|Ic]; auto.
+        - apply IHl; [|exact Hr]. intros q Hq. apply Incl. right. exact Hq. }
+      apply Sub; auto. }
+    simpl. split.
+    - exists st. repeat split; auto. subst st.
+      assert (N: map tag_of kids = names (ordered s)).
+      { clear -K. induction K as [|p kd l kids0 [Hp _] _ IH]; simpl; auto. unfold names in *. simpl. congruence. }
+      rewrite N. apply required_sound; auto.
+    - clear -K. induction K as [|p kd l kids0 [_ Hv] _ IH]; simpl; auto.
+  Qed.
+  (* C08 at document level: what the library emits is read back by the parser as an element that emits the same document *)
+  Theorem emitted_roundtrips : forall e d, elt_ok e -> emit e = Some d -> exists e', parse d = Some e' /\ emit e' = Some d.
+  Proof. intros e d O E. apply doc_roundtrip. eapply emitted_is_valid; eauto. Qed.
 End Doc.
